@@ -198,7 +198,16 @@ def check_example(path, rng, n_worlds, perturbed):
         if perturbed:
             kw = perturb(kw, rng)
         # does the concrete world support it at all?
-        CW.best_feasible_run(code, fname, kw, 1, 4)
+        why = None
+        for probe in range(1, 6):
+            try:
+                CW.best_feasible_run(code, fname, kw, probe, 4)
+                why = None
+                break
+            except CW.Unsupported as e:
+                why = str(e)
+        if why is not None:
+            return "skip", dict(example=rel, why=why)
     except CW.Unsupported as e:
         return "skip", dict(example=rel, why=str(e))
     except Exception as e:
@@ -214,7 +223,7 @@ def check_example(path, rng, n_worlds, perturbed):
     worst_case = None
     for _ in range(n_worlds):
         seed = rng.randrange(10 ** 9)
-        dim = rng.choice([2, 2, 3, 4, 6])
+        dim = rng.choice([1, 2, 2, 3, 4, 6])
         try:
             t, perf = CW.best_feasible_run(code, fname, kw, seed, dim)
         except (CW.Unsupported, np_linalg_error()):
